@@ -33,7 +33,7 @@ def _rid_for(cfg, stub_first_uuid: str) -> Any:
 
 
 def kinds_for(cfg) -> List[str]:
-    ks = ["R", "E", "O", "N", "Q", "P-", "R0", "Oe", "B", "Qn"]
+    ks = ["R", "E", "O", "N", "Q", "P-", "R0", "Oe", "B", "Qn", "En"]
     if cfg["id"] == "digits":
         ks.append("I")
     if cfg.get("cb"):
@@ -54,6 +54,8 @@ def build(kind: str, rid: Any, token: Any, seq: int) -> Any:
         return {**j, "id": OTHER_ID, "result": {"v": "O"}}
     if kind == "Oe":
         return {**j, "id": OTHER_ID, "error": {"code": -32601, "message": "nope"}}
+    if kind == "En":  # error that could not be attributed to a request (id null), e.g. a parse error reply
+        return {**j, "id": None, "error": {"code": -32700, "message": "Parse error"}}
     if kind == "N":
         return {**j, "method": "notifications/message", "params": {"level": "info", "data": "x"}}
     if kind == "Q":  # server-initiated request re-using our id
@@ -148,11 +150,34 @@ def run_one(ctl: explorer.Ctl, cfg: Dict[str, Any]) -> Dict[str, Any]:
         cb_calls: List[tuple] = []
         state = {"n": 0, "scheduled": False, "first_idle_writes": None, "stopped": False}
 
+        wd = cfg.get("write_delay")
+
+        async def q_settle():
+            # give the peer a turn to take whatever was written last
+            import asyncio as _a
+            for _ in range(3):
+                await _a.sleep(0)
+
         async def main():
-            send_w, recv_w = anyio.create_memory_object_stream(math.inf)
+            send_w, recv_w = anyio.create_memory_object_stream(math.inf if wd is None else 0)
             send_r, recv_r = anyio.create_memory_object_stream(math.inf)
             state["send_r"] = send_r
             state["recv_w"] = recv_w
+            if wd is not None:
+                # the peer takes the request off the (unbuffered) write stream only after wd seconds
+                import asyncio as _a
+
+                async def slow_peer():
+                    await _a.sleep(wd)
+                    try:
+                        while True:
+                            m = await recv_w.receive()
+                            state.setdefault("taken", []).append(m)
+                            state.setdefault("t_taken", loop.time())
+                    except Exception:
+                        pass
+
+                state["peer"] = _a.ensure_future(slow_peer())
 
             # pre-queued traffic (already in the stream before the call)
             pre = ctl.choose(len(kinds) + 1, "prequeue")
@@ -183,7 +208,15 @@ def run_one(ctl: explorer.Ctl, cfg: Dict[str, Any]) -> Dict[str, Any]:
                 out = ("error", {"cls": type(e).__name__, "code": getattr(e, "code", None), "str": str(e)})
             except BaseException as e:  # noqa: BLE001
                 out = ("other-exc", repr(e)[:200])
-            return out, loop.time() - t_start
+            elapsed = loop.time() - t_start
+            if "peer" in state:
+                await q_settle()
+                state["peer"].cancel()
+                try:
+                    await state["peer"]
+                except BaseException:  # noqa: BLE001
+                    pass
+            return out, elapsed
 
         def deliver(wire, t, rank):
             state["scheduled"] = False
@@ -194,9 +227,11 @@ def run_one(ctl: explorer.Ctl, cfg: Dict[str, Any]) -> Dict[str, Any]:
                 obs["deliver_error"] = repr(e)
 
         def idle(lp):
+            if wd is not None and "t_taken" not in state:
+                return  # the request is still being written: no traffic is scheduled before the peer has it
             if state["first_idle_writes"] is None:
                 try:
-                    state["first_idle_writes"] = state["recv_w"].statistics().current_buffer_used
+                    state["first_idle_writes"] = 1 if wd is not None else state["recv_w"].statistics().current_buffer_used
                 except Exception:
                     state["first_idle_writes"] = -1
             if state["scheduled"] or state["stopped"] or state["n"] >= L:
@@ -205,7 +240,7 @@ def run_one(ctl: explorer.Ctl, cfg: Dict[str, Any]) -> Dict[str, Any]:
             if k == 0:
                 state["stopped"] = True
                 return
-            menu = sched.time_menu(lp, deadline=T, rich=cfg.get("rich", True))
+            menu = sched.time_menu(lp, deadline=T + state.get("t_taken", 0.0), rich=cfg.get("rich", True))
             label, t, rank = menu[ctl.choose(len(menu), f"time{state['n']}")]
             wire = build(kinds[k - 1], rid, token, state["n"] + 1)
             state["n"] += 1
@@ -219,7 +254,7 @@ def run_one(ctl: explorer.Ctl, cfg: Dict[str, Any]) -> Dict[str, Any]:
         status, val = loop.run_main(main())
         errors = loop.collect_errors()
         # drain the write stream
-        writes = []
+        writes = list(state.get("taken", []))
         try:
             while True:
                 writes.append(state["recv_w"].receive_nowait())
@@ -242,7 +277,11 @@ def run_one(ctl: explorer.Ctl, cfg: Dict[str, Any]) -> Dict[str, Any]:
     obs["elapsed"] = round(elapsed, 7)
     obs["value"] = sched.jsonable(oval)
 
-    exp_kind, exp_payload, exp_t, tie = reference(deliveries, rid, T)
+    t_w = state.get("t_taken", 0.0) if wd is not None else 0.0
+    T_eff = T + t_w  # the deadline counts from the moment the request was written
+    # a message that was already waiting in the stream is seen when the call starts reading, i.e. once the request is out
+    deliveries = [(max(t, t_w), r, w) for (t, r, w) in deliveries]
+    exp_kind, exp_payload, exp_t, tie = reference(deliveries, rid, T_eff)
     decider = None
     for (t, rank, w) in deliveries:
         if not isinstance(w, list) and "method" not in w and _same_id(w.get("id"), rid):
@@ -267,10 +306,10 @@ def run_one(ctl: explorer.Ctl, cfg: Dict[str, Any]) -> Dict[str, Any]:
             if not ok:
                 bad("wrong-error", f"raised {oval}, expected {exp_payload} at {exp_t} (elapsed {elapsed})")
         else:
-            ok = abs(elapsed - T) < 1e-9
+            ok = abs(elapsed - T_eff) < 1e-9
             if not ok:
-                bad("timeout-at-wrong-time", f"TimeoutError after {elapsed}, deadline {T}")
-    elif tie and okind == "timeout" and abs(elapsed - T) < 1e-9:
+                bad("timeout-at-wrong-time", f"TimeoutError after {elapsed}, deadline {T_eff} (request written at {t_w})")
+    elif tie and okind == "timeout" and abs(elapsed - T_eff) < 1e-9:
         ok = True  # response landed exactly on the deadline: either outcome is right
     else:
         if okind == "result":
@@ -342,6 +381,8 @@ def _kind_of(w, rid, token):
             return "P+" if w["params"].get("progressToken") == token else "P-"
         return "N"
     same = _same_id(w.get("id"), rid)
+    if "error" in w and w.get("id") is None:
+        return "En"
     if "error" in w:
         return "E" if same else "Oe"
     if same:
@@ -357,7 +398,7 @@ def _kind_of(w, rid, token):
 RUN_HELPER = "vf.checks.c01:run_helper"
 # results the type-directed generator cannot derive from the helper's return annotation
 RESULT_BY_METHOD = {"completion/complete": {"completion": {"values": ["a", "b"], "total": 2, "hasMore": False}}}
-PREFIXES = [[], ["Q"], ["Qn"], ["O"], ["Oe"], ["N"], ["B"], ["P-"], ["Q", "O", "N", "B"], ["N", "N", "Qn", "Oe"]]
+PREFIXES = [[], ["Q"], ["Qn"], ["O"], ["Oe"], ["En"], ["N"], ["B"], ["P-"], ["Q", "O", "N", "B"], ["N", "En", "Qn", "Oe"]]
 
 
 def run_helper(ctl: explorer.Ctl, cfg: Dict[str, Any]) -> Dict[str, Any]:
@@ -450,6 +491,16 @@ def configs_for(tier: str):
     return full, deep, deeper
 
 
+def slow_write_configs():
+    out = []
+    for T in (0.3, 1.0):
+        for wdl in (0.25 * T, T - EPS, T, T + 0.2, 2.5 * T):
+            for idk in ("uuid", "digits"):
+                for cb in (False, True):
+                    out.append({"T": T, "id": idk, "params": "nested", "cb": cb, "L": 2, "rich": False, "write_delay": wdl})
+    return out
+
+
 def run(tier: str, only=None) -> core.Result:
     res = core.Result("C01", "model_checking")
     full, deep, deeper = configs_for(tier)
@@ -460,6 +511,9 @@ def run(tier: str, only=None) -> core.Result:
     bound = 4 if tier == "quick" else 5
     out = explorer.explore(RUN, deeper, bound=bound, fidelity=True)
     sched.absorb(res, f"L{deeper[0]['L']}-deviation-bound-{bound}", RUN, out, deeper)
+    sw = slow_write_configs()
+    out = explorer.explore(RUN, sw, fidelity=True)
+    sched.absorb(res, "slow-peer-write-backpressure", RUN, out, sw)
     hcfgs, hnames, uncallable = helper_configs()
     for u in uncallable:
         res.harness_errors.append(f"[helpers] discovered request helper cannot be driven: {u}")
